@@ -10,4 +10,6 @@ Definition srp_actual : squirks := {|
   q_ts_accessor_counted := true;
   q_ts_block_comment_counted := true;
   q_rs_name_collision := true;
-  q_rs_block_comment_counted := true |}.
+  q_rs_block_comment_counted := true;
+  q_py_setter_counted := true;
+  q_py_cached_property_counted := true |}.
